@@ -103,6 +103,7 @@ func (ss svcSettings) String() string {
 }
 
 func c01(c *Ctx) {
+	checkPrincipalEqual(c)
 	s := newTestService(c, []string{"HTTP", "host.test.gokrb5"})
 	cat := defectCatalogue()
 	skews := []time.Duration{10 * time.Second, 5 * time.Minute, time.Hour}
